@@ -283,6 +283,17 @@ def run(check, an: Analysis):
                        'parent.__child_finished__ called exactly once and the payload '
                        'closed', path=rules.path_lines(path))
     check_task_close(check, an, 'F')
+    # nothing escapes the task wrapper: whatever ends the payload or the start delay, the
+    # task reports to its scope and becomes done
+    escaping = [path for path in an.paths(wrapper) if not path.normal]
+    check.instance('F', 'wrapper:nothing-escapes', not escaping, where_fn(wrapper.fn),
+                   'every path of the task wrapper ends normally (%d paths)'
+                   % len(an.paths(wrapper)),
+                   path=rules.path_lines(escaping[0]) if escaping else None)
+    # unsubscribing what was subscribed cannot fail (closing a scope starts with it)
+    from ..report import SubCheck
+    from . import c03
+    c03._check_subscribe_protocol(SubCheck(check, 'F', 'Notification'), an)
     # ---- forced close, typestate -----------------------------------------------
     n = _scope.check_forced_close(check, an, only_modules=('usim._', 'usim.__'))
     check.instance('forced-close', 'sites-found', n >= 20, '', '%d functions can receive '
